@@ -24,9 +24,9 @@ def gen(rng, tier):
     out = []
     nrand = 40 if tier == "quick" else 2500
     for ty in ("f64", "f32"):
-        for nx in (2, 3, 4):
-            for ny in (2, 3):
-                for i in range(nrand):
+        for nx, ny in [(2, 2), (2, 3), (3, 2), (3, 3), (4, 2), (4, 3), (5, 2), (2, 5)]:
+            if True:
+                for i in range(nrand if max(nx, ny) <= 4 else max(3, nrand // 12)):
                     mode = "float" if i % 4 == 3 else "grid"
                     den = rng.choice([8, 16, 64])
                     cs = table(rng, ty, nx, ny, mode)
